@@ -128,6 +128,207 @@ func robust(run *lib.Run, c jcase, f func(jcase) outcome) {
 	run.Add(pick.kind, pick.term, c, pick.key)
 }
 
+// Round 4: histories with kills INSIDE an ingest and inside POST maxlabel, over the alphabet of the repaired
+// machine (coq/Model/IDsR.v).  events: alloc(N) | ingest(BMs) [complete] | ingestkill(N = label of one solid
+// block, above every label so far; W = k, After: die before/after the k-th data write of POST blocks) |
+// setmaxkill(N, W, After) | indexkill(N = body label, W, After: POST index/<N>, probe only) | crash | restart.
+// After a kill the process is restarted and the volume is READ BACK (GET label at a voxel of the block / GET
+// index): a label found there is recorded with the number of allocation requests issued so far; every later
+// allocation must be above it.
+func runKills(c jcase) outcome {
+	counts := map[string]int{}
+	dir := freshDir()
+	defer os.RemoveAll(dir)
+	p := mustStart(dvh.Opts{Dir: dir})
+	root := newRepo(p, "r1")
+	if st, body, _ := p.PostJSON("/api/repo/"+root+"/instance", map[string]string{"typename": "labelmap", "dataname": "lm"}); st != 200 {
+		fatal("labelmap instance: %s", body)
+	}
+	var lev, obs, stored []string
+	nreq := 0
+	up := true
+	z := int32(0)
+	done := func(k int, after bool) int { // data writes completed when the process died
+		if after {
+			return k
+		}
+		return k - 1
+	}
+	restart := func() {
+		p = mustStart(dvh.Opts{Dir: dir})
+		up = true
+		lev = append(lev, "RE LRestart")
+	}
+	plan := func(k int, after bool) {
+		mode := "before"
+		if after {
+			mode = "after"
+		}
+		p.Plan(fmt.Sprintf("data:+%d:%s", k, mode))
+	}
+	for _, e := range c.Evs {
+		switch e.K {
+		case "alloc":
+			if !up {
+				continue
+			}
+			st, body, alive := p.Post(fmt.Sprintf("/api/node/%s/lm/nextlabel/%d", root, e.N), nil)
+			if !alive {
+				fatal("child died in nextlabel: %s", p.Stderr)
+			}
+			var r struct{ Start, End uint64 }
+			json.Unmarshal(body, &r)
+			lev = append(lev, fmt.Sprintf("RE (LAlloc 1 %d)", e.N))
+			if e.N > 0 {
+				nreq++
+				if st == 200 {
+					obs = append(obs, fmt.Sprintf("Some (%d, %d)", r.Start, r.End))
+				} else {
+					obs = append(obs, "None")
+				}
+			}
+		case "ingest":
+			if !up {
+				continue
+			}
+			st, body, alive := p.Post("/api/node/"+root+"/lm/blocks", solidBlocks(e.BMs, z))
+			z++
+			if !alive || st != 200 {
+				fatal("POST blocks: %d %s %s", st, body, p.Stderr)
+			}
+			lev = append(lev, fmt.Sprintf("RE (LIngest 1 %s)", lib.CoqNList(e.BMs)))
+			for range e.BMs {
+				lev = append(lev, "RE (LBgRead 0)", "RE (LBgWrite 0)")
+			}
+		case "ingestkill":
+			if !up {
+				continue
+			}
+			plan(e.W, e.After)
+			if _, _, alive := p.Post("/api/node/"+root+"/lm/blocks", solidBlocks([]uint64{e.N}, z)); alive {
+				fatal("POST blocks survived its planned crash (data:+%d)", e.W)
+			}
+			up = false
+			lev = append(lev, fmt.Sprintf("RE (LIngest 1 [%d])", e.N), "RE (LBgRead 0)")
+			// the label is above every maximum: the update does both Puts (MaxLabel[v], MaxRepoLabel), the
+			// third data write is the block
+			if d := done(e.W, e.After); d <= 2 {
+				lev = append(lev, fmt.Sprintf("RWriteCrash 0 %d", d))
+			} else {
+				lev = append(lev, "RE (LBgWrite 0)", "RE LCrash")
+			}
+			restart()
+			_, body, _ := p.Get(fmt.Sprintf("/api/node/%s/lm/label/1_1_%d", root, z*64+1))
+			var r struct{ Label uint64 }
+			json.Unmarshal(body, &r)
+			if r.Label == e.N {
+				stored = append(stored, fmt.Sprintf("(%d, %d%%nat)", e.N, nreq))
+				counts["killed-ingest-block-stored"]++
+			} else {
+				counts["killed-ingest-block-not-stored"]++
+			}
+			z++
+		case "setmaxkill":
+			if !up {
+				continue
+			}
+			plan(e.W, e.After)
+			if _, _, alive := p.Post(fmt.Sprintf("/api/node/%s/lm/maxlabel/%d", root, e.N), nil); alive {
+				fatal("POST maxlabel survived its planned crash")
+			}
+			up = false
+			lev = append(lev, fmt.Sprintf("RSetMaxCrash 1 %d %d", e.N, done(e.W, e.After)))
+			counts["killed-maxlabel-posts"]++
+			restart()
+		case "indexkill":
+			// POST index/<label> killed at its k-th data write.  Events as the REPAIRED order would produce them
+			// (maximum raised first, then the index written): see repo_patches/C12-2-fix.diff
+			if !up {
+				continue
+			}
+			idx := &proto.LabelIndex{Label: e.N, Blocks: map[uint64]*proto.SVCount{}}
+			idx.Blocks[labels.EncodeBlockIndex(int32(z), 7, 7)] = &proto.SVCount{Counts: map[uint64]uint32{e.N: 10}}
+			z++
+			ser, _ := pb.Marshal(idx)
+			plan(e.W, e.After)
+			if _, _, alive := p.Post(fmt.Sprintf("/api/node/%s/lm/index/%d", root, e.N), ser); alive {
+				fatal("POST index survived its planned crash")
+			}
+			up = false
+			if d := done(e.W, e.After); d <= 2 {
+				lev = append(lev, fmt.Sprintf("RSetMaxCrash 1 %d %d", e.N, d))
+			} else {
+				lev = append(lev, fmt.Sprintf("RE (LSetMax 1 %d)", e.N), "RE LCrash")
+			}
+			restart()
+			if st, body, _ := p.Get(fmt.Sprintf("/api/node/%s/lm/index/%d", root, e.N)); st == 200 && len(body) > 0 {
+				var got proto.LabelIndex
+				if pb.Unmarshal(body, &got) == nil && len(got.Blocks) > 0 {
+					stored = append(stored, fmt.Sprintf("(%d, %d%%nat)", e.N, nreq))
+					counts["killed-index-stored"]++
+				}
+			}
+		case "crash":
+			if up {
+				kill(p)
+				up = false
+				lev = append(lev, "RE LCrash")
+			}
+		case "restart":
+			if !up {
+				restart()
+			}
+		}
+	}
+	if up {
+		p.Quit()
+	}
+	counts["label-ranges"] += len(obs)
+	return outcome{"kills", fmt.Sprintf("(CKill [%s] [%s] [%s])", strings.Join(lev, "; "), strings.Join(obs, "; "), strings.Join(stored, "; ")),
+		fmt.Sprintf("kills/%d/%d/%d", len(lev), len(obs), len(stored)), counts}
+}
+
+// kills inside ingests / maxlabel posts at every write position, each followed by allocations
+func genKills(rng *lib.Rand) jcase {
+	c := jcase{Kind: "kills"}
+	top := uint64(0) // upper bound of every label in use or handed out so far
+	n := 4 + rng.Intn(5)
+	for i := 0; i < n; i++ {
+		switch rng.Intn(6) {
+		case 0:
+			k := uint64(1 + rng.Intn(9))
+			c.Evs = append(c.Evs, ev{K: "alloc", N: k})
+			top += k
+		case 1:
+			var bms []uint64
+			for j := 1 + rng.Intn(3); j > 0; j-- {
+				bms = append(bms, 1+uint64(rng.Intn(int(top)+40)))
+			}
+			c.Evs = append(c.Evs, ev{K: "ingest", BMs: bms})
+			for _, b := range bms {
+				top = maxU(top, b)
+			}
+		case 2:
+			l := top + 1 + uint64(rng.Intn(50))
+			c.Evs = append(c.Evs, ev{K: "setmaxkill", N: l, W: 1 + rng.Intn(2), After: rng.Intn(2) == 0})
+			top = l
+			c.Evs = append(c.Evs, ev{K: "alloc", N: 1})
+			top++
+		case 3:
+			c.Evs = append(c.Evs, ev{K: "crash"}, ev{K: "restart"})
+		default:
+			l := top + 1 + uint64(rng.Intn(50))
+			c.Evs = append(c.Evs, ev{K: "ingestkill", N: l, W: 1 + rng.Intn(4), After: rng.Intn(2) == 0})
+			top = l
+			k := uint64(1 + rng.Intn(3))
+			c.Evs = append(c.Evs, ev{K: "alloc", N: k})
+			top += k
+		}
+	}
+	c.Evs = append(c.Evs, ev{K: "alloc", N: 2})
+	return c
+}
+
 func freshDir() string {
 	d, err := os.MkdirTemp("", "c12")
 	if err != nil {
@@ -1110,7 +1311,7 @@ func main() {
 	log.SetOutput(io.Discard)
 	rng := lib.NewRand(o.Seed)
 	run := lib.NewRun("C12", o)
-	run.Header("From DV Require Import Base.Prelude Model.Persist Model.IDs Model.C12Run.", "Local Open Scope N_scope.")
+	run.Header("From DV Require Import Base.Prelude Model.Persist Model.IDs Model.IDsR Model.C12Run.", "Local Open Scope N_scope.")
 	dispatch := func(c jcase) {
 		switch c.Kind {
 		case "mutid":
@@ -1121,6 +1322,8 @@ func main() {
 			runRace(run, c)
 		case "ids":
 			robust(run, c, runIDs)
+		case "kills":
+			robust(run, c, runKills)
 		default:
 			fatal("unknown case kind %q", c.Kind)
 		}
@@ -1173,6 +1376,22 @@ func main() {
 		{K: "newversion"}, {K: "receive", N: 3, W: 2}, {K: "crash"}, {K: "restart"}, {K: "newdata"}, {K: "newversion"}, {K: "newrepo"}}})
 	dispatch(jcase{Kind: "ids", Evs: []ev{{K: "newrepo"}, {K: "receive", N: 1}, {K: "quit"}, {K: "restart"}, {K: "newversion"}, {K: "newrepo"},
 		{K: "receive", N: 1}, {K: "crash"}, {K: "restart"}, {K: "newdata"}, {K: "newrepo"}}})
+	// Round 4: an ingest killed before / after each Put of its max-label update and before / after its block
+	// write, POST maxlabel killed at each Put; the volume is read back after the restart
+	dispatch(jcase{Kind: "kills", Evs: []ev{{K: "alloc", N: 5},
+		{K: "ingestkill", N: 100, W: 1, After: false}, {K: "alloc", N: 1},
+		{K: "ingestkill", N: 200, W: 1, After: true}, {K: "alloc", N: 1},
+		{K: "ingestkill", N: 300, W: 2, After: true}, {K: "alloc", N: 1},
+		{K: "ingestkill", N: 400, W: 3, After: false}, {K: "alloc", N: 1},
+		{K: "ingestkill", N: 500, W: 3, After: true}, {K: "alloc", N: 1},
+		{K: "ingestkill", N: 600, W: 4, After: true}, {K: "alloc", N: 2},
+		{K: "setmaxkill", N: 700, W: 1, After: true}, {K: "alloc", N: 1},
+		{K: "setmaxkill", N: 800, W: 2, After: false}, {K: "alloc", N: 1},
+		{K: "ingest", BMs: []uint64{650, 900}}, {K: "crash"}, {K: "restart"}, {K: "alloc", N: 3}}})
+	if os.Getenv("C12_INDEXKILL") != "" {
+		// probe (finding C12-2): POST index writes the index before it raises the maximum
+		dispatch(jcase{Kind: "kills", Evs: []ev{{K: "alloc", N: 5}, {K: "indexkill", N: 1000, W: 1, After: true}, {K: "alloc", N: 1}, {K: "alloc", N: 1000}}})
+	}
 	nm, nl, ni, rounds := 3, 3, 3, 30
 	if o.Thorough() {
 		nm, nl, ni, rounds = 25, 25, 25, 300
@@ -1190,6 +1409,9 @@ func main() {
 	for i := 0; i < ni; i++ {
 		dispatch(genIDs(rng))
 	}
+	for i := 0; i < nl; i++ {
+		dispatch(genKills(rng))
+	}
 	// race probe: rising labels, several blocks per request
 	race := jcase{Kind: "race"}
 	top := uint64(100)
@@ -1204,7 +1426,7 @@ func main() {
 	}
 	dispatch(race)
 	run.Finish("c12case",
-		"mutation-id histories (allocations crossing stride boundaries, kills at the stride write before/after, idle kills, killed restarts, configured minimum), label histories (nextlabel, maxlabel, solid-block ingests awaited, kills inside an allocation after 0/1/2 persistence writes, idle kills, restarts), id histories (repos, instances, versions with kills inside id-allocating requests); distinct by (kind, event count, issued count / trace)",
+		"mutation-id histories (allocations crossing stride boundaries, kills at the stride write before/after, idle kills, killed restarts, configured minimum), label histories (nextlabel, maxlabel, solid-block ingests awaited, kills inside an allocation after 0/1/2 persistence writes, idle kills, restarts), id histories (repos, instances, versions with kills inside id-allocating requests), kill histories (POST blocks killed before/after the Put of MaxLabel[v], of MaxRepoLabel, of the block; POST maxlabel killed at each Put; the volume read back after each restart); distinct by (kind, event count, issued count / trace)",
 		tail)
 }
 
